@@ -23,13 +23,13 @@ CLAIMED = {
 CLAIMED['C01'] = {
     'technique': 'Rocq proof (interval-evaluator soundness, serialisation/decoding) + correspondence (tie B)',
     'text': ('Deep embedding of the expression language with mathematical semantics evalX (Coq reals). Proved in Rocq for all trees, '
-             'environments and sharings: the executable interval evaluator encloses evalX (T01f), the differ is sound, and (Proofs/SigP.v) '
+             'environments and sharings: the executable interval evaluator encloses evalX (T01f) with no hypothesis left on the normal CDF (Phi defined as 1/2 + RInt npdf 0 x; its series enclosure PhiI_series proved, T01f_PhiI_series_correct / T01f_evalI_sound_concrete), the differ is sound, and (Proofs/SigP.v) '
              'decoding the emitted signature yields the index-resolved tree whatever the sharing. Tied to the code on every run by streams: '
              'engine value per row and pure-Python value vs proved enclosures (exact dyadic exchange, membership decided in Coq), '
              'get_signature bytes and IdManager tables vs the models, 1-3 formulas side by side, shared sub-formulas, a history of a '
              'failing then a valid evaluation.'),
     'note': KERNEL + 'the compiled engine is external: its operator semantics are MODELLED (Model/EvalX.v) and only sampled; IEEE rounding is '
-            'covered by the 2^-30 relative tolerance; normal CDF has no interval extension (undecided); real-number axioms of the standard '
+            'covered by the 2^-30 relative tolerance; normal CDF: the enclosure is proved (Proofs/PhiP.v) without the Gaussian integral, so 0 <= Phi <= 1 is not proved and enclosures are not clipped to [0,1]; that the normal CDF of the engine and of scipy is this Phi is sampled (stream phi_grid); real-number axioms of the standard '
             'library, classic, functional extensionality, primitive 63-bit integers (Interval/Bignums).',
 }
 CLAIMED['C03'] = {
@@ -142,7 +142,7 @@ CLAIMED['C17'] = {
              'Python builder (expr_eqb in Coq); piecewise_function, exec(segmented_code()) and correlation() against exact rational evaluation; engine values against '
              'interval enclosures of evalX and the closed forms, including l within 2e-5 of the switch. PARTIAL: normal/lognormal integrate-to-one reduced to the '
              'Gaussian integral (assumed); the Box-Cox jump at |l| = 1e-5 bounded only numerically.'),
-    'note': KERNEL + 'py2v and the specialised extractor in lib/props/C17.py; the expression bridge; evalI soundness (Proofs/EvalIP.v); PhiI_series trusted for normal CDF values.',
+    'note': KERNEL + 'py2v and the specialised extractor in lib/props/C17.py; the expression bridge; evalI soundness (Proofs/EvalIP.v); PhiI_series proved to enclose Phi_def = 1/2 + RInt npdf 0 x (Proofs/PhiP.v).',
 }
 
 CLAIMED['C19'] = {
